@@ -26,7 +26,7 @@ COQ = os.path.join(VERIF, "coq")
 HARNESS = os.path.join(VERIF, "harness")
 CACHE = os.path.join(VERIF, ".cache")
 TARGET = os.path.join(CACHE, "target")
-REPO = "/repo"
+REPO = os.environ.get("VERIF_REPO", "/repo")
 GUARD = "dicom_rs_verif"
 
 FORBIDDEN = re.compile(
